@@ -256,7 +256,7 @@ func init() {
 		if !r.Thorough() {
 			specs = []Spec{
 				{Name: "mixed-T256-L3", Kind: "mixed", T: 256, L: 3, Keys: 2, Classes: []string{"t", "limA+", "A"}, Oracles: or, Depth: 5, Extra: map[string]int{"temp": 1}},
-				{Name: "mixed-split-T256-L5", Kind: "mixed", T: 256, L: 5, Keys: 4, Classes: []string{"limM"}, Oracles: []string{"crash", "ev:commit1"}, Depth: 7},
+				{Name: "mixed-split-T256-L5", Kind: "mixed", T: 256, L: 5, Keys: 4, Classes: []string{"limM", "t"}, Oracles: []string{"crash", "ev:commit1"}, Depth: 6},
 			}
 			specs = append(specs, TrajSpecs(r.ID, "arr-mixed", 60, 20, 61, 20, 2, 256, []string{"t"}, []string{"crash", "ev:commit1"})...)
 			specs = append(specs, TrajSpecs(r.ID, "map-grow-lim", 90, 51, 92, 40, 2, 256, []string{"t"}, []string{"crash", "ev:commit1"})...)
